@@ -61,6 +61,18 @@ theorem int_arith (x y : Int64) :
   intro hy
   simp [binop, binopInt, hy]
 
+/-- Two ints are compared as 64-bit integers, exactly — also beyond 2^53, where neighbouring
+integers are not distinct `float64` values: no promotion takes place unless one operand is a
+float. -/
+theorem int_compare_exact (x y : Int64) :
+    binop .eq "EQ" (.int x) (.int y) = .ok (.bool (x == y))
+    ∧ binop .lt "LT" (.int x) (.int y) = .ok (.bool (x < y))
+    ∧ binop .gt "GT" (.int x) (.int y) = .ok (.bool (x > y)) := ⟨rfl, rfl, rfl⟩
+
+/-- … for instance 2^53 and 2^53 + 1 are different and ordered. -/
+example : ((9007199254740992 : Int64) == 9007199254740993) = false
+    ∧ decide ((9007199254740992 : Int64) < 9007199254740993) = true := by decide
+
 /-- "Strings can be concatenated with the plus" -/
 theorem str_concat (a b : Bytes) : binop .add "ADD" (.str a) (.str b) = .ok (.str (a ++ b)) := rfl
 
